@@ -169,6 +169,8 @@ def report(out, fails, obs):
     origin, samples = {}, []
     scripterr = 0
     for ln, o in enumerate(vlib.read_ndjson(obs)):
+        if o.get("outcome") == "notrun":
+            continue
         if o.get("outcome") in ("hang", "abort", "harness_panic"):
             out.fail("NEW", "worker %s during a compaction script" % o.get("outcome"), o.get("input_case"), family="worker " + str(o.get("outcome")))
             continue
